@@ -627,7 +627,7 @@ pub fn act_bracket(sim: &mut Sim, ctx: &mut Ctx, kind: BracketKind) -> Option<Tx
                 sim.stats.fault("tx_bracket_inner_via_cpi");
             }
         }
-        14 | 15 => {
+        14 | 15 | 19 => {
             // a second start for ANOTHER account (made unhealthy first); the single end closes
             // only one of the two brackets
             if let Some((_, _, other, _)) = cands.iter().find(|c| c.2 != target && c.1 == gi).cloned() {
